@@ -4,4 +4,5 @@
 using namespace simd;
 using intervals_t = ikos::interval_domain<z_number, varname_t>;
 using D = powerset_domain<intervals_t>;
-SIM_REGISTER_DOMAIN(pow_intervals, D, "pow_intervals", CAP_CORE)
+SIM_REGISTER_DOMAIN(pow_intervals, D, "pow_intervals",
+                    CAP_CORE)
